@@ -265,6 +265,12 @@ struct Sweep
       for (size_t k = 0; k < its.size (); ++k)
       { Op x = o; x.kind = OP_INSERT_RANGE; x.prel = 1; x.pos = 0; x.count = 1; x.itk = its[k]; emit (prefix, x); }
       if (e.feat.copyable) { Op x = o; x.kind = OP_INSERT_ILIST; x.prel = 1; x.pos = 0; x.count = 1; emit (prefix, x); }
+      if (e.feat.copyable)
+        for (size_t a = 0; a < as.size (); ++a)
+        {
+          if (as[a].arel == 2) continue;
+          Op x = o; x.kind = OP_INSERT_N; x.prel = 1; x.pos = 0; x.count = 1; x.alias = as[a].alias; x.arel = as[a].arel; emit (prefix, x);
+        }
     }
     if (all)
     {
